@@ -12,6 +12,7 @@ from . import REPO
 from .values import EngineError
 
 PKG = 'py_ballisticcalc'
+VERIF = os.path.dirname(os.path.dirname(os.path.abspath(__file__)))
 
 
 class FuncInfo:
@@ -26,7 +27,14 @@ class FuncInfo:
 
     @property
     def key(self):
-        rel = os.path.relpath(self.filename, REPO) if self.filename.startswith(REPO) else os.path.basename(self.filename)
+        if self.filename.startswith(REPO + os.sep):
+            rel = os.path.relpath(self.filename, REPO)
+        elif self.filename.startswith(VERIF + os.sep):
+            rel = 'verif:' + os.path.relpath(self.filename, VERIF)
+        elif os.path.basename(self.filename) == 'bisect.py':
+            rel = 'Lib/bisect.py'
+        else:
+            rel = os.path.basename(self.filename)
         return f'{rel}::{self.qualname}'
 
     def loop_nodes(self):
@@ -132,6 +140,10 @@ class RepoIndex:
         ``which`` selects among same-named defs ('setter' / 'getter' / ordinal)."""
         if relfile == 'Lib/bisect.py':
             filename = self.bisect_file
+        elif relfile.startswith('verif:'):
+            filename = os.path.join(VERIF, relfile[6:])
+            if filename not in self.trees:
+                self._parse(filename)
         else:
             filename = os.path.join(REPO, relfile)
         nodes = self.by_qual.get((filename, qualname))
